@@ -560,8 +560,15 @@ class PythonToIrCompiler:
             if ty is None:
                 self.error(node, "Undefined variable")
             else:
-                mem = self.emit(ir.Alloc(f"alloc_{name}", 8, 8))
-                addr = self.emit(ir.AddressOf(mem, f"addr_{name}"))
+                # A python local lives in the whole function, no matter
+                # where it is bound first (for example in one branch of
+                # an if statement, or in a loop body). Allocate it in the
+                # entry block, which dominates all uses:
+                mem = ir.Alloc(f"alloc_{name}", 8, 8)
+                addr = ir.AddressOf(mem, f"addr_{name}")
+                entry = self.builder.function.entry
+                entry.insert_instruction(addr)
+                entry.insert_instruction(mem)
                 var = Var(addr, True, ty)
                 self.local_map[name] = var
         return var
